@@ -181,8 +181,16 @@ func permutations(n int) [][]int {
 	return out
 }
 
-func c16Unit(p *Program, bound, maxExecs int) *Unit {
-	return &Unit{Name: "prepare/" + p.Name, Run: func(deadline time.Time) *UnitResult {
+func c16Unit(p *Program, bound, maxExecs int) *Unit { return c16UnitV(p, bound, maxExecs, false) }
+
+// c16UnitV: with verdictOnly the program may be one that preparation rejects; the verdict itself must
+// then be the same under every map order, text permutation and renaming.
+func c16UnitV(p *Program, bound, maxExecs int, verdictOnly bool) *Unit {
+	name := "prepare/" + p.Name
+	if verdictOnly {
+		name = "prepare-verdict/" + p.Name
+	}
+	return &Unit{Name: name, Run: func(deadline time.Time) *UnitResult {
 		res := &UnitResult{}
 		var canonOut string
 		body := func(q *Program, rename map[string]string) func() {
@@ -202,7 +210,7 @@ func c16Unit(p *Program, bound, maxExecs int) *Unit {
 		sites := vrt.MapSeen
 		vrt.MapSeen = nil
 		defer func() { vrt.MapPolicy = nil }()
-		if base == "REJECTED" {
+		if base == "REJECTED" && !verdictOnly {
 			res.HarnessErrors = append(res.HarnessErrors, "program "+p.Name+" is rejected")
 			return res
 		}
@@ -383,7 +391,7 @@ func lineOf(s, what string) string {
 
 func init() {
 	register(&PropCheck{ID: "C16", Level: "model_checking",
-		Rule:        "Prepare re-run with every range-over-map / reflect.MapKeys site of the engine packages (rewritten at build time) forced, one site at a time and in pairs, to iterate reversed / rotated / with the first two keys swapped on every visit, and with all sites reversed at once; plus repeated preparation, all permutations of step and output order in the text and consistent renamings; canonicalised DAG, output schemas, namespaces and input scope must equal the default preparation's; states = preparations compared",
+		Rule:        "Prepare re-run with every range-over-map / reflect.MapKeys site of the engine packages (rewritten at build time) forced, one site at a time and in pairs, to iterate reversed / rotated / with the first two keys swapped on every visit, and with all sites reversed at once; plus repeated preparation, all permutations of step and output order in the text and consistent renamings; canonicalised DAG, output schemas, namespaces and input scope must equal the default preparation's; the same for the verdict on single-point corruptions of 5 programs (ill-formed programs must be rejected under every order); states = preparations compared",
 		Assumptions: []string{"map iteration inside third-party libraries (dgraph, pluginsdk schema, expressions) is not controlled; object identifiers generated at random are erased before comparison", "programs are limited to the generator's subset of the workflow language"},
 		Budget:      budget(170*time.Second, 25*time.Minute),
 		Units: func(tier string) []*Unit {
@@ -401,6 +409,18 @@ func init() {
 				}
 				seen[p.Name] = true
 				us = append(us, c16Unit(p, tierBound(tier, 2, 3), tierBound(tier, 2500, 200000)))
+			}
+			// ill-formed and varied programs: the verdict (and, if accepted, the result) must not depend on
+			// map order or text order either
+			for _, p := range []*Program{progFanIn(), progWaitStarted(), progStopProducer(), progEnabled(), progForeach(subProg(), 2)} {
+				for i, c := range corruptions(p) {
+					if tier != "thorough" && i%2 == 1 && !strings.Contains(c.name, "literal") && !strings.Contains(c.name, "removed") {
+						continue
+					}
+					q := c.prog
+					q.Name = fmt.Sprintf("%s#%d", p.Name, i)
+					us = append(us, c16UnitV(q, 1, tierBound(tier, 800, 20000), true))
+				}
 			}
 			return us
 		}})
